@@ -115,7 +115,7 @@ fn classify_panic(msg: &str) -> &'static str {
         "PAssert"
     } else if has("Unsupported register") || has("Cannot convert operand") {
         "PRegConv"
-    } else if has("called `Option::unwrap()`") || has("called `Result::unwrap()`") || has("reading memory operand") {
+    } else if has("called `Option::unwrap()`") || has("called `Result::unwrap()`") || has("reading memory operand") || has("Unknown segment type") {
         "PUnwrap"
     } else if has("out of bounds") || has("out of range") || has("slice index") || has("range end index") || has("range start index") {
         "PIndex"
@@ -588,15 +588,35 @@ fn run_case(lines: &[String], out: &mut String) {
                 guarded(|| a.handle_syscalls(list).map_err(es), |_| String::new())
             }
             "render" => {
-                let r1 = catch_unwind(AssertUnwindSafe(|| a.trace().is_ok()));
-                let r2 = catch_unwind(AssertUnwindSafe(|| a.call_stack().is_ok()));
+                // indentation width of every rendered line (the only fallible part of the renderers)
+                fn indents(text: &str, skip_tail: usize) -> String {
+                    let lines: Vec<&str> = text.lines().collect();
+                    let n = lines.len().saturating_sub(skip_tail);
+                    lines[..n]
+                        .iter()
+                        .map(|l| (l.len() - l.trim_start_matches(' ').len()).to_string())
+                        .collect::<Vec<_>>()
+                        .join(",")
+                }
+                let r1 = catch_unwind(AssertUnwindSafe(|| a.trace()));
+                let depth = a.verif_call_stack().len();
+                let r2 = catch_unwind(AssertUnwindSafe(|| a.call_stack()));
                 let r3 = catch_unwind(AssertUnwindSafe(|| a.to_string().len() > 0));
-                format!(
-                    "r render {} {} {}",
-                    if r1.is_ok() { "ok" } else { "panic" },
-                    if r2.is_ok() { "ok" } else { "panic" },
-                    if r3.is_ok() { "ok" } else { "panic" }
-                )
+                let s1 = match r1 {
+                    Ok(Ok(t)) => format!("ok:{}", indents(&t, 0)),
+                    Ok(Err(_)) => "err".to_string(),
+                    Err(_) => "panic".to_string(),
+                };
+                let s2 = match r2 {
+                    Ok(Ok(t)) => {
+                        // one line per frame, then (when RIP decodes) two lines about the current position
+                        let total = t.lines().count();
+                        format!("ok:{}", indents(&t, total - depth.min(total)))
+                    }
+                    Ok(Err(_)) => "err".to_string(),
+                    Err(_) => "panic".to_string(),
+                };
+                format!("r render {} {} {}", s1, s2, if r3.is_ok() { "ok" } else { "panic" })
             }
             "symbol" => match a.resolve_symbol(hex(t[1])) {
                 Some(s) => format!("r ok {}", hexs(s.as_bytes())),
